@@ -4,19 +4,19 @@ CONSTANTS
   LC = {"unset"}
   ND = {"valid"}
   NC = {"unset"}
-  CBS = {"unset", "empty", "A", "B", "ws", "bad"}
-  CAS = {"unset", "empty", "A", "ws", "bad", "badonly"}
-  CBD = {"unset", "A", "B", "bad"}
-  PBL = {"unset", "empty", "A", "ws", "bad"}
+  CBS = {"unset", "empty", "A", "B", "ws", "bad", "badfirst"}
+  CAS = {"unset", "empty", "A", "ws", "bad", "badfirst", "badonly"}
+  CBD = {"unset", "A", "B", "bad", "badfirst"}
+  PBL = {"unset", "empty", "A", "ws", "bad", "badfirst"}
   GEO = {"unset"}
   WK = {"unset"}
   PUB = {"unset", "true"}
   FK = {"ok", "syntax", "wrongtype", "unreadable"}
   SF = {"S1", "malformed", "missing", "badgen"}
-  RCBS = {"unset", "A", "B", "ws", "bad"}
-  RCAS = {"unset", "A", "bad", "badonly"}
-  RCBD = {"unset", "A", "B", "bad"}
-  RPBL = {"unset", "A", "bad"}
+  RCBS = {"unset", "A", "B", "ws", "bad", "badfirst"}
+  RCAS = {"unset", "A", "bad", "badfirst", "badonly"}
+  RCBD = {"unset", "A", "B", "bad", "badfirst"}
+  RPBL = {"unset", "A", "bad", "badfirst"}
   RGEO = {"unset", "missing"}
   RPUB = {"unset", "true"}
   RFK = {"ok", "syntax", "wrongtype", "unreadable"}
